@@ -28,6 +28,8 @@ type Program struct {
 	SSAPkg map[string]*ssa.Package
 	// SoftErrors counts type errors that were tolerated (tinygo: missing function body).
 	SoftErrors int
+	// Renamed lists the functions that are analysed under the name recorded for them at the pinned tree.
+	Renamed []string
 }
 
 // ModulePath of the root module under analysis.
@@ -51,15 +53,38 @@ func loadEnv() []string {
 // tree. withSSA builds go/ssa for the root packages. softMissingBody tolerates
 // "missing function body" type errors (tinygo configuration of pkg/wasm).
 func Load(name, dir, tags string, patterns []string, withSSA, softMissingBody bool) (*Program, error) {
+	p, err := loadWith(name, dir, tags, patterns, withSSA, softMissingBody, nil)
+	if err != nil {
+		return nil, err
+	}
+	// functions that were renamed since the pinned tree are analysed under their recorded names (renames.go)
+	if base := loadAnchors()[name]; base != nil {
+		if ren := renamedFuncs(p, base); len(ren) > 0 {
+			if overlay, oerr := renameOverlay(p, ren); oerr == nil {
+				if p2, err2 := loadWith(name, dir, tags, patterns, withSSA, softMissingBody, overlay); err2 == nil {
+					for fn, old := range ren {
+						p2.Renamed = append(p2.Renamed, funcDisplayName(fn)+" is analysed under its recorded name "+old)
+					}
+					sort.Strings(p2.Renamed)
+					return p2, nil
+				}
+			}
+		}
+	}
+	return p, nil
+}
+
+func loadWith(name, dir, tags string, patterns []string, withSSA, softMissingBody bool, overlay map[string][]byte) (*Program, error) {
 	fset := token.NewFileSet()
 	cfg := &packages.Config{
 		Mode: packages.NeedName | packages.NeedFiles | packages.NeedCompiledGoFiles | packages.NeedImports |
 			packages.NeedTypes | packages.NeedSyntax | packages.NeedTypesInfo |
 			packages.NeedTypesSizes | packages.NeedModule,
-		Dir:   dir,
-		Fset:  fset,
-		Env:   loadEnv(),
-		Tests: false,
+		Dir:     dir,
+		Fset:    fset,
+		Env:     loadEnv(),
+		Tests:   false,
+		Overlay: overlay,
 	}
 	if tags != "" {
 		cfg.BuildFlags = []string{"-tags=" + tags}
